@@ -11,6 +11,7 @@
 -/
 import Avt.Driver.Codec
 import Avt.Spec.All
+import Std.Data.HashSet
 
 namespace Avt.Driver
 open Avt Avt.Codec
@@ -59,7 +60,9 @@ structure D where
   caseBad : Bool := false
   badCases : Nat := 0
   funHist : List (String × Nat) := []
-  deriving Inhabited
+  hashes : List (Nat × UInt64) := []      -- per instance: hash of its latest ST record
+  seen : Std.HashSet UInt64 := {}         -- (state, op) keys on which a non-trivial predicate was evaluated
+  distinct : Nat := 0
 
 def getInst (d : D) (k : Nat) : Option Spec.Inst := d.insts.lookup k
 
@@ -73,6 +76,15 @@ def report (d : D) (kind what : String) : IO D := do
 def mismatch (d : D) (what : String) : IO D := do
   let d ← report d "MISMATCH" what
   pure { d with mismatches := d.mismatches + 1 }
+
+/-- key of "this operation applied to these states" for counting distinct non-trivial evaluations -/
+def opKey (d : D) : UInt64 :=
+  d.hashes.foldl (fun acc (k, h) => mixHash acc (mixHash (hash k) h)) (hash d.lastOp)
+
+def noteNontrivial (d : D) (any : Bool) : D :=
+  if !any then d else
+  let key := opKey d
+  if d.seen.contains key then d else { d with seen := d.seen.insert key, distinct := d.distinct + 1 }
 
 def bump (h : List (String × Nat)) (k : String) : List (String × Nat) :=
   match h.lookup k with
@@ -189,6 +201,7 @@ def finishOp (d : D) (k : Nat) (op : Op) (res : Res) (next : Option Vt) : IO D :
       | .fail what =>
         d ← report d "SPECFAIL" s!"what={what} op={d.lastOp}"
         d := { d with specfails := d.specfails + 1 }
+    d := noteNontrivial d (verdicts.any fun v => match v with | .pass true => true | _ => false)
     let inst' : Spec.Inst := { inst with
       st := next,
       drained := inst.drained ++ (res.sb.getD []),
@@ -209,7 +222,7 @@ def parseStrs (ts : List String) : Option (List (List Nat)) :=
 def strsTok (ls : List (List Nat)) : String := " ".intercalate (ls.map hexEncode)
 
 def applyVerdicts (d : D) (vs : List Spec.Verdict) : IO D := do
-  let mut d := d
+  let mut d := noteNontrivial d (vs.any fun v => match v with | .pass true => true | _ => false)
   for v in vs do
     d := { d with specEvals := d.specEvals + 1 }
     match v with
@@ -219,7 +232,7 @@ def applyVerdicts (d : D) (vs : List Spec.Verdict) : IO D := do
       d := { d with specfails := d.specfails + 1 }
   pure d
 
-def handle (d : D) (line : String) : IO D := do
+partial def handle (d : D) (line : String) : IO D := do
   let ts := (line.splitOn " ").filter (· ≠ "")
   let d := { d with lineNo := d.lineNo + 1 }
   match ts with
@@ -235,6 +248,11 @@ def handle (d : D) (line : String) : IO D := do
       pure { d with pending := .new k cols rows lim, lastOp := line }
     | _, _, _ => mismatch d "bad N line"
   | "ST" :: k :: rest =>
+    let some k := k.toNat? | mismatch d "bad ST line"
+    let _ := rest
+    let d ← handle { d with lineNo := d.lineNo - 1 } ("ST_" ++ (line.drop 2).toString)
+    pure { d with hashes := (k, hash line) :: d.hashes.filter (·.1 ≠ k) }
+  | "ST_" :: k :: rest =>
     let some k := k.toNat? | mismatch d "bad ST line"
     let prevLines : List (List Line) := match getInst d k with
       | some i => [i.st.terminal.buffer.lines, i.st.terminal.otherBuffer.lines]
@@ -518,7 +536,7 @@ def main (args : List String) : IO UInt32 := do
   let stdin ← IO.getStdin
   let d ← loop stdin { prop := prop }
   let hist := " ".intercalate ((d.funHist.map fun (k, n) => s!"{k}:{n}"))
-  IO.println s!"SUMMARY prop={prop} cases={d.cases} ops={d.ops} mismatches={d.mismatches} specfails={d.specfails} spec_evals={d.specEvals} nontrivial={d.nontrivial} impl_panics={d.panicsImpl} bad_cases={d.badCases}"
+  IO.println s!"SUMMARY prop={prop} cases={d.cases} ops={d.ops} mismatches={d.mismatches} specfails={d.specfails} spec_evals={d.specEvals} nontrivial={d.nontrivial} distinct={d.distinct} impl_panics={d.panicsImpl} bad_cases={d.badCases}"
   IO.println s!"FUNHIST {hist}"
   pure (if d.mismatches = 0 ∧ d.specfails = 0 then 0 else 1)
 
